@@ -64,11 +64,17 @@ fn run_case(rng: &mut Rng, clean: bool) -> Case {
         pops_after_remove: 0,
         ctor_checks: 0,
     };
-    let n_ops = 1 + rng.usize_below(60);
+    // every eighth sequence is long (stale tickets pile up)
+    let n_ops = if rng.chance(1, 8) { 150 + rng.usize_below(250) } else { 1 + rng.usize_below(60) };
     let max_live = 1 + rng.usize_below(8);
     for _ in 0..n_ops {
         clock += 1;
-        let op = rng.weighted(&[30, 22, 12, 14, 6, 4, 8, 4]);
+        // long sequences are remove-heavy and pop-poor: stale tickets pile up
+        let op = if n_ops > 100 {
+            rng.weighted(&[40, 2, 36, 8, 4, 2, 6, 2])
+        } else {
+            rng.weighted(&[30, 22, 12, 14, 6, 4, 8, 4])
+        };
         match op {
             0 => {
                 // push: fresh id, or (unless clean) an id that was removed / popped earlier
